@@ -84,6 +84,15 @@ Theorem C14_tour_legs : forall t, WFweak t ->
             nth_error (legs t) i = Some (firstn 2 (skipn i (t_acts t)), i).
 Proof. exact P_C14_tour_legs. Qed.
 
+(* index / index_last / job_activities find a job exactly when contains() holds; removing a job that is not a job of
+   the tour (in particular a sub-job of a Multi wrapped as a Single: the job of its activity is the Multi) changes nothing *)
+Theorem C14_tour_queries : forall t j, jobs_ok t ->
+  (contains t j = true <-> tindex t j <> None) /\ (contains t j = true <-> tindex_last t j <> None) /\
+  (contains t j = true <-> job_activities t j <> []).
+Proof. exact query_consistent. Qed.
+Theorem C14_tour_remove_nonmember : forall t j, jobs_ok t -> contains t j = false -> remove t j = (t, false).
+Proof. exact remove_nonmember. Qed.
+
 (* (f) an operation on slot k leaves every other slot untouched; a copy equals its original *)
 Theorem C14_tour_slots_frame : forall ss o ss' r k,
   sstep ss o = Some (ss', r, k) -> forall k', k' <> k -> k' < length ss -> nth_error ss' k' = nth_error ss k'.
